@@ -998,7 +998,7 @@ func (w *vfc13World) applyToolRequest(l *vfc13Link, q vfc13Req) {
 			w.s.Count("book_" + strings.SplitN(tok, ":", 2)[0])
 			return
 		}
-		w.violate("unmodelled-bookkeeping-traffic", "the tool wrote a stand-alone request the model has no form for: "+c.tok(),
+		w.violate("tie-shape:unmodelled-bookkeeping-traffic", "the tool wrote a stand-alone request the model has no form for: "+c.tok(),
 			map[string]interface{}{"cmd": c.tok()})
 		w.viol = true
 		w.evs = append(w.evs, fmt.Sprintf("r%s:0:%s", name, c.tok()))
@@ -1146,7 +1146,7 @@ func (w *vfc13World) commitBlock(l *vfc13Link, kind string, blk vfc13Block, txn 
 		nCtl = 2
 	}
 	if len(txn) < 1+nCtl {
-		w.violate("commit-shape", "committed transaction is not marker + business commands + record(+index)", replay)
+		w.violate("tie-shape:commit-shape", "committed transaction is not marker + business commands + record(+index)", replay)
 		w.viol = true
 		return
 	}
@@ -1161,7 +1161,7 @@ func (w *vfc13World) commitBlock(l *vfc13Link, kind string, blk vfc13Block, txn 
 			checkpoint.IsBisyncCommitIndexKey(string(idx.Args[0]))
 	}
 	if !okShape {
-		w.violate("commit-shape", "committed transaction is not marker + business commands + record(+index)", replay)
+		w.violate("tie-shape:commit-shape", "committed transaction is not marker + business commands + record(+index)", replay)
 		w.viol = true
 		return
 	}
